@@ -272,6 +272,22 @@ struct RefsWorld : World {
 				uintptr_t r; { Sut su; r = lib[k]->addref(); }
 				log.ev("LIB_TAKE kind %d -> %lu", k, (unsigned long) r);
 				if (r) ++lib_model[k];
+				if (r && k == 1 && ((op.c / NK) & 1)) {
+					// the holder uses the plot data: values into some dimension of some stage, a new stage; everything the object comes to own must go with it
+					// (the interface sits right behind the metatype part of the object; it cannot be had by conversion: mpt_rawdata_type_traits()
+					// lacks a `static` and tries to register "mpt.rawdata" again on every call, which the registry refuses - DESIGN.md section 9, observations)
+					rawdata *rd = reinterpret_cast<rawdata *>(reinterpret_cast<void **>(lib[1]) + 1);
+					{
+						uint32_t y = (uint32_t) (op.c / (2 * NK)) * 2654435761u;
+						double vals[6] = {1, 2, 3, 4, 5, 6}; struct iovec vec; vec.iov_base = vals; vec.iov_len = sizeof(double) * (1 + (y >> 4) % 6);
+						value v; v.set(MPT_type_toVector('d'), &vec);
+						valdest vd; vd.cycle = (y >> 8) % 3; vd.offset = (y >> 12) % 4;
+						int rc; bool fired; { Sut su(failn); rc = rd->modify((y >> 16) % 3, v, &vd); fired = g.fired; }
+						int adv = -1; if (y & 0x100000) { Sut su(failn); adv = rd->advance(); fired = fired || g.fired; }
+						log.ev("    raw data: modify -> %d, advance -> %d%s", rc, adv, fired ? " (allocation failed)" : "");
+						if (rc >= 0) st.hit("probe:rawdata_filled"); if (fired) st.hit("fault:allocfail");
+					}
+				}
 				outcome = r ? 1 : 0;
 				break;
 			}
